@@ -1,9 +1,9 @@
 SPECIFICATION TraceSpec
 CONSTANTS
   NSlot = 6
-  NMock = 4
+  NMock = 5
   NSeq = 3
-  NObj = 3
+  NObj = 4
   NMon = 4
   NTr = 3
   AsIs_D1 = FALSE
